@@ -62,7 +62,14 @@ class BytesProxy:
         return r
 
     def items(self):
-        return self.i.items()
+        # LRUBytes.items() is a generator: nothing of the cache is read before the consumer iterates.  The proxy keeps
+        # that laziness and records the read where it really happens, so a wrapper that hands the live iterator out of
+        # its critical section shows up as an inner read without the lock (and as a listing that is not the call-time one)
+        def gen():
+            r = list(self.i.items())
+            self.log.append({"op": "items", "ks": [k for k, _ in r], "th": threading.current_thread().name})
+            yield from r
+        return gen()
 
 
 class LruProxy:
@@ -129,7 +136,10 @@ def bytes_trace(seed, tidn, maxe, maxb, nthreads, nops):
                 elif x < 0.95:
                     k in w
                 else:
-                    w.items()
+                    snap = w.items()
+                    if x < 0.975:
+                        w.put(k, r.randrange(1, 99), 1)      # the listing is the one of the call, whatever happens next
+                    list(snap)
         return work
     _threads_run([mk(i) for i in range(nthreads)])
     log.append({"op": "final", "items": [[k, v] for k, v in inner.items()], "bytes": inner.size_bytes(),
